@@ -365,7 +365,7 @@ class H2Explorer(concur.Explorer):
         return p
 
     def url(self, c):
-        return f"https://o0.example/{c.token}?up={c.up}&down={c.down}"
+        return f"https://o{c.origin}.example/{c.token}?up={c.up}&down={c.down}"
 
     async def caller_main(self, c):
         import anyio
@@ -516,7 +516,10 @@ def gen_caller(rng, cfg, i):
     down = rng.choice(cfg.get("downs", [0, 10, 3000]))
     modes = ["read"] * 5 + ["hold"] * 2 + (["abandon"] if cfg.get("abandon") else [])
     chunks = rng.choice([0, 0, 1, 2, 3, 4]) if up else rng.choice([0, 0, 0, 1])
-    return Caller(i, up, down, rng.choice(modes), chunks)
+    c = Caller(i, up, down, rng.choice(modes), chunks)
+    if cfg.get("origins", 1) > 1:
+        c.origin = rng.randrange(cfg["origins"])
+    return c
 
 
 async def schedule(ex, spawn, settle):
